@@ -11,31 +11,31 @@ package criteria_bounding
 //@      b.valueRange == nil ? trimmed(*b.bounding, x) : clamp2(trimmed(*b.bounding, x), b.valueRange.Min, b.valueRange.Max)
 
 //@ func boundValueInRange
-//@   property C17 C18 C19
+//@   property C17 C18 C19 C20
 //@   nopanic
 //@   ensures [clamp] result == clamp2(value, scaledRange.Min, scaledRange.Max)
 //@ func scaleRange
-//@   property C17 C18 C19
+//@   property C17 C18 C19 C20
 //@   requires valueRange != nil
 //@   ensures [scaled] result != nil && result.Min == utils.scaledMin(*valueRange, scaling) && result.Max == utils.scaledMax(*valueRange, scaling)
 //@ func (*CriteriaBounding).trimBelowZeroIfRequired
-//@   property C17 C18 C19
+//@   property C17 C18 C19 C20
 //@   ensures [trim] result == trimmed(*b, value)
 //@ func (*CriteriaBounding).WithRange
-//@   property C17 C18 C19
+//@   property C17 C18 C19 C20
 //@   requires valueRange != nil
 //@   ensures [kept] fresh(result) && result.bounding == b
 //@   ensures [interval] b.AllowedValuesRangeScaling > 0.0 ? (result.valueRange != nil
 //@              && result.valueRange.Min == utils.scaledMin(*valueRange, b.AllowedValuesRangeScaling)
 //@              && result.valueRange.Max == utils.scaledMax(*valueRange, b.AllowedValuesRangeScaling)) : result.valueRange == nil
 //@ func (*CriteriaInRangeBounding).BoundValue
-//@   property C17 C18 C19
+//@   property C17 C18 C19 C20
 //@   ensures [bounded] result == boundedIn(*b, value)
 //@ func FromParams
 //@   property C17 C18 C19 C20
 //@   ensures [nonzero] result.AllowedValuesRangeScaling != 0.0 && fresh(result)
 //@ func DefaultParams
-//@   property C17 C18 C19
+//@   property C17 C18 C19 C20
 //@   ensures fresh(result) && result.AllowedValuesRangeScaling == -1.0 && !result.DisallowNegativeValues
 
 //@ lemma [C17 C18 C19] clamp_in_interval: forall x real, lo real, hi real
